@@ -84,7 +84,8 @@ Definition unfitted_ok (tr : list entry) : bool :=
     if a_valid a then outcome_is_ae o else outcome_is_ae o || outcome_is_ve o) all_bool) all_adesc) tr.
 
 (* ---------------------------------------------------------------- correspondence cases *)
-Inductive observed := OVE | OAE | OTypeError | OOther | ORetFinite | ORetNonFinite.
+(* OVE: ValueError other than an optimisation failure; OOptErr: pygam.utils.OptimizationError / NotPositiveDefiniteError *)
+Inductive observed := OVE | OOptErr | OAE | OTypeError | OOther | ORetFinite | ORetNonFinite.
 
 Record c11case := mk_case {
   c_cls : string; c_meth : string; c_arg : argk; c_desc : desc; c_fitted : bool; c_skip : bool; c_obs : observed
@@ -97,6 +98,13 @@ Definition find_entry (cls meth : string) (arg : argk) : option entry :=
    `Used` / `Finished` means the call goes on computing with the data: on valid array data it must return finite
    numbers; on corrupted data (a listed exception) or on a container the code dereferences directly the model makes
    no prediction -- the property statement itself is then evaluated by the harness. *)
+(* does this call (re)fit a model on the data?  fit, gridsearch; fit_quantile unless it leaves at its first break on a
+   fitted model; sample when the bootstrap loop runs (n_bootstraps > 1: refits on simulated responses) *)
+Definition refits (e : entry) (fitted skip : bool) : bool :=
+  if String.eqb (e_meth e) "sample" then negb skip
+  else if String.eqb (e_meth e) "fit_quantile" then negb fitted || negb skip
+  else e_fitting e.
+
 Definition check_case (c : c11case) : bool :=
   match find_entry (c_cls c) (c_meth c) (c_arg c) with
   | None => false
@@ -112,7 +120,11 @@ Definition check_case (c : c11case) : bool :=
       | CrashedTE _, _ => false
       | Used _, o | Finished, o =>
           if a_valid (abstract (c_desc c)) && is_array (d_cont (c_desc c)) && (c_fitted c || e_fitting e)
-          then match o with ORetFinite => true | _ => false end
+          then match o with
+               | ORetFinite => true
+               | OOptErr => refits e (c_fitted c) (c_skip c)     (* the property permits an optimisation failure of a fit on valid data *)
+               | _ => false
+               end
           else true
       end
   end.
